@@ -20,22 +20,42 @@ func genConsts() {
 	cmp, div := "opaque", "0"
 	kfns := funcDecls(parseDir("x/skyway/keeper"))
 	if fd := kfns["Keeper.TryAttestation"]; fd != nil {
+		// the variable holding the threshold: assigned from an expression mentioning AttestationVotesPowerThreshold
+		required := ""
 		ast.Inspect(fd.Body, func(n ast.Node) bool {
-			ce, ok := n.(*ast.CallExpr)
-			if !ok {
+			as, ok := n.(*ast.AssignStmt)
+			if !ok || len(as.Lhs) != 1 || len(as.Rhs) != 1 {
 				return true
 			}
-			s := src(ce)
-			if strings.HasPrefix(s, "attestationPower.") && strings.HasSuffix(s, "(requiredPower)") {
-				cmp = strings.TrimSuffix(strings.TrimPrefix(s, "attestationPower."), "(requiredPower)")
-			}
-			if strings.Contains(s, "AttestationVotesPowerThreshold.Mul(totalPower).Quo(math.NewInt(") {
-				i := strings.Index(s, "Quo(math.NewInt(")
-				rest := s[i+len("Quo(math.NewInt("):]
-				div = rest[:strings.Index(rest, ")")]
+			s := src(as.Rhs[0])
+			if strings.Contains(s, "AttestationVotesPowerThreshold") {
+				required = src(as.Lhs[0])
+				if i := strings.Index(s, "Quo(math.NewInt("); i >= 0 {
+					rest := s[i+len("Quo(math.NewInt("):]
+					div = rest[:strings.Index(rest, ")")]
+				}
 			}
 			return true
 		})
+		// the comparison against it: <power>.<CMP>(<required>)
+		n := 0
+		ast.Inspect(fd.Body, func(nd ast.Node) bool {
+			ce, ok := nd.(*ast.CallExpr)
+			if !ok || len(ce.Args) != 1 || required == "" || src(ce.Args[0]) != required {
+				return true
+			}
+			if sel, ok := ce.Fun.(*ast.SelectorExpr); ok {
+				switch sel.Sel.Name {
+				case "GT", "GTE", "LT", "LTE", "Equal":
+					cmp = sel.Sel.Name
+					n++
+				}
+			}
+			return true
+		})
+		if n != 1 {
+			cmp = "opaque"
+		}
 	}
 	emitStr("tryAttestationComparator", cmp)
 	emitNat("tryAttestationDivisor", div)
